@@ -14,14 +14,22 @@ through what the property determines: the partition, the identity of pre-existin
 classes, and freshness of new classes.  In addition the specification itself ("same class <=>
 verdict true", order independence) is evaluated on the implementation's own output
 (`cluster.spec`).
+
+Representation: numbers that are == in Python (1, 1.0, numpy.int64(1), numpy.float64(1.0)) are one `Val.num` for the model.
+A pool entry may record how the OBJECT spells each number ("as"), or be made by a route of the library at evaluation time
+("rsmi": get_rc(rsmi_to_its(.)), "gml": gml_to_its(.)); `strip_repr` removes the spelling from what goes to Lean, so lists
+that mix spellings / provenance have the same model answer as the plain ones (streams tiny-exhaustive-spellings,
+spellings-and-provenance, predicate-direct-spellings).
 """
 import copy
 import hashlib
 import itertools
 import json
+import numbers
 from collections import OrderedDict
 
 import networkx as nx
+import numpy as np
 
 from .. import graphio
 from ..core import ROOT, build_and_audit, load_known, match_known
@@ -70,7 +78,9 @@ SEL = {"node_keys": ["element", "charge"], "edge_keys": ["order"], "hcount": Fal
 TYPED_KINDS = ("degs", "elem_count", "elem_count_od", "elem_tuple", "elem_set")
 # invariant attributes that are not iterable: an int, or the attribute key named in the call but carried by no entry
 SCALAR_KINDS = ("n_nodes", "absent")
-INVARIANT_KINDS = ("none", "elems", "elems_unsorted", "hash", "size", "degs_unsorted") + TYPED_KINDS + SCALAR_KINDS
+# the same values with their numbers spelled int / float / numpy.int64 / numpy.float64 from one graph to the next (== all the same)
+NUMTYPE_KINDS = ("degs_numtype", "elem_count_numtype")
+INVARIANT_KINDS = ("none", "elems", "elems_unsorted", "hash", "size", "degs_unsorted") + TYPED_KINDS + SCALAR_KINDS + NUMTYPE_KINDS
 CLASS_SCALAR_ATTR = "gc_attribute_not_iterable"
 CLASS_BACKEND_CASE = "backend_name_case"
 ELEMENTS = ["C", "N", "O", "S", "H", "Br", "Cl", "P"]
@@ -132,11 +142,140 @@ def plain(gj):
     return {"nodes": gj["nodes"], "edges": gj["edges"]}
 
 
+# ---------------------------------------------------------------- representation of numbers
+# A number of the encoding may carry "as": HOW the Python object given to the implementation spells it -- absent: int (float
+# when it is a half), "float", "np_int" (numpy.int64), "np_float" (numpy.float64).  All of them are == in Python and ONE value
+# `Val.num` in the model: `strip_repr` removes the mark from everything that goes to the Lean driver.
+NUM_STYLES = ("int", "float_int0", "float", "int_float0", "np_int", "np_float", "per_value")
+STR_ORDER = {0: "", 2: "-", 3: ":", 4: "=", 6: "#"}
+STYLED_NODE_KEYS = ("charge", "atom_map", "hcount")
+STYLED_EDGE_KEYS = ("order", "standard_order")
+SPECTATOR_NAMES = ("weight", "label", "id", "name", "capacity")
+
+
+def strip_repr(v):
+    if isinstance(v, dict):
+        if "n" in v:
+            return {"n": v["n"]}
+        if "t" in v:
+            return {"t": [strip_repr(x) for x in v["t"]]}
+    return v
+
+
+def unval_t(j):
+    """graphio.unval, honouring the representation mark."""
+    if isinstance(j, dict) and "n" in j:
+        h, a = j["n"], j.get("as")
+        x = h // 2 if h % 2 == 0 else h / 2
+        if a == "float":
+            return float(x)
+        if a == "np_float" or (a == "np_int" and h % 2):
+            return np.float64(x)
+        if a == "np_int":
+            return np.int64(x)
+        return x
+    if isinstance(j, dict) and "t" in j:
+        return tuple(unval_t(y) for y in j["t"])
+    return graphio.unval(j)
+
+
+def val_t(x):
+    """graphio.val, recording the representation of numbers."""
+    if isinstance(x, (tuple, list)):
+        return {"t": [val_t(y) for y in x]}
+    if isinstance(x, bool) or not isinstance(x, numbers.Real):
+        return graphio.val(x)
+    v = graphio.val(x)
+    if isinstance(x, np.floating):
+        v["as"] = "np_float"
+    elif isinstance(x, np.integer):
+        v["as"] = "np_int"
+    elif isinstance(x, float) and v["n"] % 2 == 0:
+        v["as"] = "float"
+    return v
+
+
+def graph_t(G, node_keys, edge_keys):
+    return {"nodes": [[int(n), {str(k): val_t(v) for k, v in d.items() if k in node_keys}] for n, d in G.nodes(data=True)],
+            "edges": [[int(u), int(v), {str(k): val_t(x) for k, x in d.items() if k in edge_keys}] for u, v, d in G.edges(data=True)]}
+
+
+def to_nx_t(j):
+    G = nx.Graph()
+    for n, a in j["nodes"]:
+        G.add_node(n, **{k: unval_t(v) for k, v in a.items()})
+    for u, v, a in j["edges"]:
+        G.add_edge(u, v, **{k: unval_t(x) for k, x in a.items()})
+    return G
+
+
+def _style_val(v, style, rnd):
+    if isinstance(v, dict) and "n" in v:
+        h = v["n"]
+        a = {"int": None, "float": "float", "float_int0": "float" if h else None, "int_float0": None if h else "float",
+             "np_int": "np_int", "np_float": "np_float"}[style] if style != "per_value" else \
+            rnd.choice([None, "float", "np_int", "np_float"])
+        return {"n": h} if a is None else {"n": h, "as": a}
+    if isinstance(v, dict) and "t" in v:
+        return {"t": [_style_val(x, style, rnd) for x in v["t"]]}
+    return v
+
+
+def _str_val(v):
+    if isinstance(v, dict) and "n" in v:
+        return {"s": STR_ORDER.get(v["n"], "o" + str(v["n"]))}
+    if isinstance(v, dict) and "t" in v:
+        return {"t": [_str_val(x) for x in v["t"]]}
+    return v
+
+
+def restyle(gj, style, rnd):
+    """The same graph for the model (strip_repr gives the same encoding) with its numbers spelled another way:
+    int: (1, 0) | float_int0: (1.0, 0) as in the pickled corpus | float: (1.0, 0.0) as get_rc(rsmi_to_its(.)) writes |
+    int_float0: (1, 0.0) as gml_to_its writes | np_int / np_float: numpy scalars | per_value: every number on its own.
+    Style "str" is a DIFFERENT graph for model and implementation alike: bond orders become the strings '-', '=', '#', ':', ''
+    (the edge matcher is a generic `==`); two graphs styled "str" compare like their numeric originals."""
+    g = copy.deepcopy(plain(gj))
+    num = "int" if style == "str" else style
+    for _, a in g["nodes"]:
+        for k in STYLED_NODE_KEYS:
+            if k in a:
+                a[k] = _style_val(a[k], num, rnd)
+    for e in g["edges"]:
+        a = e[2]
+        for k in STYLED_EDGE_KEYS:
+            if k in a:
+                if style == "str" and k == "order":
+                    a[k] = _str_val(strip_repr(a[k]))
+                elif k == "order" and "n" in a[k]:
+                    # a SCALAR bond order is never a numpy scalar: numpy answers `numpy.int64(1) == (1, 2)` (a scalar order next
+                    # to a pair order of another graph) with an ARRAY, whose truth value is an error inside the networkx matcher
+                    # -- that is numpy's `==`, not the equality the property speaks of.  Inside a pair numpy scalars are fine.
+                    a[k] = _style_val(a[k], {"np_int": "int", "np_float": "float"}.get(num, num), rnd)
+                    if a[k].get("as", "float") != "float":
+                        a[k] = {"n": a[k]["n"], "as": "float"}
+                else:
+                    a[k] = _style_val(a[k], num, rnd)
+    return g
+
+
+def add_spectators(g, rnd):
+    """Attributes nobody selected, under names a library default might pick up (networkx reads `weight`, GML writers read
+    `label` / `id` / `name`, flow routines `capacity`): falsy and differing values, on nodes and edges."""
+    vals = [{"n": 0}, {"n": 0, "as": "float"}, {"s": ""}, {"n": 2}, {"n": 14}, {"s": "x"}, {"t": []}, {"n": 5, "as": "float"}]
+    for part, pos in ((g["nodes"], 1), (g["edges"], 2)):
+        for x in part:
+            for name in SPECTATOR_NAMES:
+                if rnd.random() < 0.3:
+                    x[pos][name] = dict(rnd.choice(vals))
+    return g
+
+
 def norm_json(gj):
     """`SynKit.Cluster.norm` (SynKitProofs/ClusterIso.lean) on the JSON encoding: the default a matcher reads
     for an ABSENT key is written out ("*", 0 on nodes; 1 on edges); a key that is present is left alone."""
     def wd(a, defaults):
-        a = dict(a)
+        a = {k: strip_repr(v) for k, v in a.items()}   # 1, 1.0, numpy.int64(1), numpy.float64(1.0): ONE Lean value
         for k, v in defaults:
             if k not in a:
                 a[k] = v
@@ -153,24 +292,49 @@ def build_rc(rsmi, kw):
     return get_rc(rsmi_to_its(rsmi), **kw)
 
 
-def rc_entry(rsmi, kw):
+def rc_entry(rsmi, kw, typed=False):
     try:
-        enc = graphio.graph(build_rc(rsmi, kw), RC_NODE_KEYS, RC_EDGE_KEYS)
+        G = build_rc(rsmi, kw)
+        enc = graph_t(G, RC_NODE_KEYS, RC_EDGE_KEYS) if typed else graphio.graph(G, RC_NODE_KEYS, RC_EDGE_KEYS)
     except Exception:  # the pipeline is not this property's concern: fall back to a plain empty graph
         return {"nodes": [], "edges": []}
-    return {**enc, "rsmi": rsmi, "rc_kw": dict(kw)}
+    return {**enc, "rsmi": rsmi, "rc_kw": dict(kw), **({"typed": True} if typed else {})}
+
+
+def build_gml(text):
+    """A reaction centre read back from GML rule text by the real reader (again only to obtain the OBJECT that route makes:
+    bond orders come back as (1, 0.0) / (0.0, 1), extra node attributes hcount / typesGH / aromatic / neighbors)."""
+    from synkit.IO.chem_converter import gml_to_its
+    return gml_to_its(text)
+
+
+def gml_text(G):
+    from synkit.IO.chem_converter import its_to_gml
+    return its_to_gml(G)
 
 
 def entry_graph(entry):
-    """-> (the networkx object given to the implementation, the encoding of exactly that object)"""
+    """-> (the networkx object given to the implementation, the encoding of exactly that object)
+    entry["rsmi"]: the object is made by get_rc(rsmi_to_its(.)); entry["gml"]: by gml_to_its(.); entry["typed"]: the encoding
+    records how the object spells its numbers (so that copies derived from the encoding keep the spelling)."""
+    enc_of = (lambda G: graph_t(G, RC_NODE_KEYS, RC_EDGE_KEYS)) if entry.get("typed") else \
+             (lambda G: graphio.graph(G, RC_NODE_KEYS, RC_EDGE_KEYS))
     if "rsmi" in entry:
         try:
             G = build_rc(entry["rsmi"], entry.get("rc_kw") or {})
-            enc = graphio.graph(G, RC_NODE_KEYS, RC_EDGE_KEYS)
-            return G, {**enc, "rsmi": entry["rsmi"], "rc_kw": entry.get("rc_kw") or {}}
+            extra = {"rsmi": entry["rsmi"], "rc_kw": entry.get("rc_kw") or {}}
+            if entry.get("typed"):
+                extra["typed"] = True
+            return G, {**enc_of(G), **extra}
         except Exception:
             pass
-    return graphio.to_nx(entry), entry
+    if "gml" in entry:
+        try:
+            G = build_gml(entry["gml"])
+            return G, {**graph_t(G, RC_NODE_KEYS, RC_EDGE_KEYS), "gml": entry["gml"], "typed": True}
+        except Exception:
+            pass
+    return to_nx_t(entry), entry
 
 
 def _node(i, el, q=0):
@@ -314,7 +478,7 @@ def near_miss(gj, rnd):
 def _num(x):
     if isinstance(x, (tuple, list)):
         return tuple(_num(y) for y in x)
-    return float(x) if isinstance(x, (int, float)) and not isinstance(x, bool) else x
+    return float(x) if isinstance(x, numbers.Real) and not isinstance(x, (bool, np.bool_)) else x
 
 
 def attr_value(kind, G):
@@ -349,6 +513,14 @@ def attr_value(kind, G):
         for e in els:
             out[e] = out.get(e, 0) + 1
         return OrderedDict(sorted(out.items()))
+    if kind in NUMTYPE_KINDS:     # which spelling: decided by the node ids, so that relabelled copies differ in it
+        cast = [int, float, np.int64, np.float64][(sum(G.nodes) + G.number_of_nodes()) % 4]
+        if kind == "degs_numtype":
+            return [cast(d) for d in sorted(d for _, d in G.degree())]
+        out = {}
+        for e in els:
+            out[e] = out.get(e, 0) + 1
+        return {e: cast(c) for e, c in out.items()}
     if kind == "elem_tuple":
         return tuple(sorted(els))
     if kind == "elem_set":
@@ -364,9 +536,19 @@ def _scalar(v):
     return v is None or isinstance(v, (bool, int, float))
 
 
+def _pynum(v):
+    """3, 3.0, numpy.int64(3), numpy.float64(3.0) are ONE key for `==` (and for the model): the plain int."""
+    if isinstance(v, (bool, np.bool_)) or not isinstance(v, numbers.Real):
+        return v
+    f = float(v)
+    return int(f) if f == int(f) else f
+
+
 def key_json(v):
     """An attribute value as JSON such that rendering equality == Python `==` among values of ONE kind
     (what BatchCluster.lib_check compares)."""
+    if isinstance(v, numbers.Real):
+        return _pynum(v)
     if _scalar(v) or isinstance(v, str):
         return v
     if isinstance(v, OrderedDict):   # OrderedDict == OrderedDict is order sensitive
@@ -386,7 +568,7 @@ def gc_key(values):
         return [key_json(v) for v in values]
     # sorted(dict) = its sorted keys, sorted(set / tuple) = a sorted list; a value that is not iterable (the code as it is
     # raises TypeError there, class CLASS_SCALAR_ATTR) is its own key
-    return [v if _scalar(v) else sorted(v) for v in values]
+    return [_pynum(v) if _scalar(v) else sorted(_pynum(x) for x in v) for v in values]
 
 
 # ---------------------------------------------------------------- a case
@@ -1213,6 +1395,122 @@ def malformed_cases(corpus):
     ]
 
 
+# ---------------------------------------------------------------- representation and provenance
+def load_rsmis():
+    """The mapped reactions of the vendored uspto corpus (the reactions whose centres are corpus/c13_rc.json)."""
+    out = []
+    for line in (ROOT / "corpus" / "reactions.tsv").read_text().splitlines():
+        f = line.split("\t")
+        if len(f) == 3 and f[0] == "uspto":
+            out.append(f[2])
+    return out
+
+
+def prov_corpus(corpus, rsmis, rnd, n):
+    """The corpus plus `n` of its centres as the pipeline makes them NOW: such an entry carries its reaction SMILES, the object
+    given to the implementation is get_rc(rsmi_to_its(.)) (orders (1.0, 0.0), extra attributes typesGH / is_mtg), its
+    encoding records that spelling.  The JSON corpus centre of the same reaction is its twin from another route."""
+    out = list(corpus)
+    for r in rnd.sample(rsmis, min(n, len(rsmis))):
+        e = rc_entry(r, {}, typed=True)
+        if "rsmi" in e and e["nodes"] and all_present(e):
+            out.append(e)
+    return out
+
+
+def respell_pool(case, rnd, kinds):
+    """Every pool entry gets a spelling of its own (the model's encoding of it does not change): one of NUM_STYLES, the object
+    the pipeline makes (entries with a reaction SMILES), the object gml_to_its makes from the GML text of the centre, in
+    "str-themed" lists bond orders as strings; some entries also get spectator attributes under well-known names.
+    Duplicates (the same pool entry twice) share a spelling, relabelled copies / near misses / templates do not."""
+    def seen(k):
+        kinds[k] = kinds.get(k, 0) + 1
+    str_p = 0.5 if rnd.random() < 0.12 else 0.02
+    pool = []
+    for g in case["pool"]:
+        c = rnd.random()
+        if "rsmi" in g and c < 0.7:
+            seen("spelling:route=get_rc(rsmi_to_its)")
+            pool.append(g)
+            continue
+        if c < 0.2 and g["edges"]:
+            try:
+                G0, _ = entry_graph(g)
+                text = gml_text(G0)
+                H = build_gml(text)
+                if H.number_of_nodes() == G0.number_of_nodes() and H.number_of_edges() == G0.number_of_edges():
+                    seen("spelling:route=gml_to_its(its_to_gml)")
+                    pool.append({**graph_t(H, RC_NODE_KEYS, RC_EDGE_KEYS), "gml": text, "typed": True})
+                    continue
+            except Exception:  # noqa: BLE001 - the GML writer is not this property's concern
+                pass
+        style = "str" if rnd.random() < str_p else rnd.choice(NUM_STYLES)
+        h = restyle(g, style, rnd)
+        if rnd.random() < 0.3:
+            add_spectators(h, rnd)
+            seen("spelling:spectators(weight/label/id/name/capacity)")
+        seen("spelling:" + style)
+        pool.append(h)
+    case["pool"] = pool
+    return case
+
+
+def tiny_repr_alphabet():
+    """ONE C-O centre (bond broken: order (1, 0)) spelled five ways, its near miss (bond formed: (0, 1)) spelled two ways."""
+    def g(u, v, a, b, qo=None):
+        return {"nodes": [[u, {"element": {"s": "C"}, "charge": {"n": 0}}], [v, {"element": {"s": "O"}, "charge": qo or {"n": 0}}]],
+                "edges": [[u, v, {"order": {"t": [a, b]}}]]}
+    F, NI, NF = "float", "np_int", "np_float"
+    return [g(1, 2, {"n": 2}, {"n": 0}),                                                    # (1, 0)      harness / JSON
+            g(7, 3, {"n": 2, "as": F}, {"n": 0}),                                           # (1.0, 0)    pickled corpus
+            g(4, 9, {"n": 2, "as": F}, {"n": 0, "as": F}, {"n": 0, "as": F}),               # (1.0, 0.0)  get_rc(rsmi_to_its)
+            g(12, 5, {"n": 2}, {"n": 0, "as": F}),                                          # (1, 0.0)    gml_to_its
+            g(0, 8, {"n": 2, "as": NF}, {"n": 0, "as": NI}, {"n": 0, "as": NI}),            # numpy scalars
+            g(1, 2, {"n": 0}, {"n": 2}),                                                    # near miss (0, 1)
+            g(6, 2, {"n": 0, "as": F}, {"n": 2, "as": F})]                                  # near miss (0.0, 1.0)
+
+
+def tiny_repr_cases(maxlen):
+    """ALL lists up to `maxlen` over the seven spellings; no attribute in half of them."""
+    alpha = tiny_repr_alphabet()
+    out = []
+    k = 0
+    for L in range(1, maxlen + 1):
+        for seq in itertools.product(range(len(alpha)), repeat=L):
+            k += 1
+            out.append({"pool": alpha, "items": list(seq), "attr": ["none", "elems", "none", "hash"][k % 4], "gc_only": False,
+                        "perm": list(reversed(range(L))), "arrival": list(range(L))[1:] + [0],
+                        "templates": [[3, 5]] if k % 5 == 0 else ([[6, 0], [1, -3]] if k % 5 == 1 else []),
+                        "batch_sizes": [2] if k % 2 else [None, 1], "empty_list_templates": bool(k % 2),
+                        "shared": k % 3 == 0, "opts": ["default", "perm", "explicit"][(k // 3) % 3]})
+    return out
+
+
+def make_repr_pair(rnd, corpus, kinds):
+    """An ordered pair for the predicate-direct gates: the same / a relabelled / a near-miss / a derived graph, each side in a
+    spelling of its own."""
+    c = rnd.random()
+    if c < 0.6:
+        a, k = copy.deepcopy(rnd.choice(corpus)), "corpus"
+    elif c < 0.8:
+        a, k = sym_ring(rnd), "sym_ring"
+    else:
+        a, k = degenerate(rnd)
+        a = plain(a)
+    how = rnd.choice(["same", "relabel", "relabel", "near", "derived"])
+    b = {"same": lambda: copy.deepcopy(a), "relabel": lambda: relabel(a, rnd), "near": lambda: near_miss(a, rnd)[0],
+         "derived": lambda: derived(a, rnd)[0]}[how]()
+    styles = NUM_STYLES + ("str",)
+    sa = rnd.choice(styles)
+    sb = "str" if (sa == "str" and rnd.random() < 0.7) else rnd.choice(styles)
+    key = f"pair-spelling:{how}/{'str' if 'str' in (sa, sb) else 'numbers'}"
+    kinds[key] = kinds.get(key, 0) + 1
+    a2, b2 = restyle(a, sa, rnd), restyle(b, sb, rnd)
+    if rnd.random() < 0.3:
+        add_spectators(b2, rnd)
+    return {"kind": "pair", "a": a2, "b": b2, "how": f"{how}/{sa}/{sb}"}
+
+
 # ---------------------------------------------------------------- entry points, key names, attribute types
 RULE_KEYS = ["gml", "rc", "RC", "graph"]
 ATTR_KEYS = ["att", "WLHash", "signature", "rc_sig"]
@@ -1433,6 +1731,13 @@ def run(ctx):
         "backend 'nx' (the MØD backend is not installed: the GML-string route -- graph_cluster.py 104-105/144, batch_cluster.py "
         "112-113/128-130 -- cannot run here and is about rule strings, not reaction-centre graphs); a backend name in another "
         f"case that the constructor accepts must cluster like 'nx' (class '{CLASS_BACKEND_CASE}')",
+        "spellings: numbers that are equal under Python == (1, 1.0, numpy.int64(1), numpy.float64(1.0)) are ONE value of the model "
+        "(Val.num, half-units): the case file records the spelling of each number of the object under \"as\", `strip_repr` removes it "
+        "from everything sent to the Lean driver; bool is never mixed with int. A bond order given as a string is a string for "
+        "the model too (Val.str): '-' is not 1. Attribute values whose numbers are spelled differently are == for the code "
+        "(list / dict equality) and one key for the model (`_pynum`)",
+        "gml_to_its / its_to_gml, like rsmi_to_its / get_rc, only PRODUCE input objects (the GML text is part of the case file); "
+        "the object they return is encoded as it is and judged by the Lean engine, nothing about it is assumed",
         "entry-points stream: the decoy values under the keys a call does NOT name (a one-atom graph under 'gml', position-unique "
         "strings under 'WLHash' / 'signature' / 'att') are never read by a correct implementation; reading one changes the partition",
     ]
@@ -1464,7 +1769,21 @@ def run(ctx):
         "(names from {gml, rc, RC, graph} x {att, WLHash, signature, rc_sig}; decoys under the names not used), strip=True in 30%, "
         "`templates=None` instead of [] handed to lib_check / cluster in 60%. scalar-or-absent-attribute stream: lists of 1-10, "
         "attribute = node count (int) or a named key that no entry carries. backend-spelling stream: 12 lists of 2-6 over the "
-        "5-graph alphabet for backend in {nx, NX, Nx, nX}, GraphCluster.fit and BatchCluster.fit (batched, one batch)."
+        "5-graph alphabet for backend in {nx, NX, Nx, nX}, GraphCluster.fit and BatchCluster.fit (batched, one batch). "
+        "Third tiny-exhaustive part (spellings): ALL lists of length <=3 (quick) / <=4 (thorough) over ONE C-O centre whose bond "
+        "order is spelled (1, 0) / (1.0, 0) / (1.0, 0.0) / (1, 0.0) / (numpy.float64, numpy.int64) plus its near miss (0, 1) in two "
+        "spellings; attribute none in half of the lists, else elems / hash; templates, long-lived instances, option spellings. "
+        "spellings-and-provenance stream (drawn last): lists of 3-26 built like the corpus stream (30% like rare-shapes) over the "
+        "corpus PLUS 40 of its centres made at run time by get_rc(rsmi_to_its(reaction)); afterwards every pool entry (so every "
+        "relabelled copy, near miss and template on its own, duplicates together) gets a spelling: 70% of the pipeline-made "
+        "entries stay the object the pipeline returns ((1.0, 0.0), extra attributes), 20% of the others become the object "
+        "gml_to_its(its_to_gml(.)) returns ((1, 0.0), other node ids, extra attributes), the rest one of int / (1.0, 0) / all "
+        "float / (1, 0.0) / numpy.int64 / numpy.float64 / every number on its own (charges, orders, spectator numbers alike); 12% "
+        "of the lists are str-themed (half of the entries carry bond orders as strings '-', '=', '#', ':', ''); 30% of the entries "
+        "get spectator attributes named weight / label / id / name / capacity with falsy and differing values on nodes and edges; "
+        "attribute none in 3/8, else elems / hash / size or a typed attribute whose numbers are int / float / numpy.int64 / "
+        "numpy.float64 from one graph to the next (sorted degree list, element -> count dict). predicate-direct-spellings "
+        "stream: ordered pairs same / relabelled / near miss / derived with each side in a spelling of its own."
     )
     ctx.nontrivial_rule = ("distinct as (pool, list, attribute, orders, templates, batch sizes); >= 2 classes and >= 1 class with >= 2 members "
                            "in the model's one-shot clustering; predicate pairs: distinct as (A, B) and A, B not the same encoding")
@@ -1492,6 +1811,13 @@ def run(ctx):
     ctx.extra["exhaustive"] = not ctx.violations
     ctx.extra["exhaustive_part"] += (f"; all {len(tiny2)} lists of length <= {3 if ctx.quick else 4} over 7 empty / single-atom / "
                                      "edgeless centres")
+
+    tiny3 = tiny_repr_cases(3 if ctx.quick else 4)
+    if len(ctx.violations) < 6:
+        evaluate(ctx, tiny3, "tiny-exhaustive-spellings")
+    ctx.extra["exhaustive"] = not ctx.violations
+    ctx.extra["exhaustive_part"] += (f"; all {len(tiny3)} lists of length <= {3 if ctx.quick else 4} over one C-O centre spelled "
+                                     "(1, 0) / (1.0, 0) / (1.0, 0.0) / (1, 0.0) / numpy and its near miss spelled two ways")
 
     n_main = 320 if ctx.quick else 4000
     n_gc = 80 if ctx.quick else 800
@@ -1564,6 +1890,28 @@ def run(ctx):
         evaluate(ctx, scal, "scalar-or-absent-attribute")
     if len(ctx.violations) < 6:
         evaluate_backend(ctx, backend_cases(rnd), "backend-spelling")
+    # representation and provenance: ==-equal values spelled differently WITHIN one list (drawn after every older stream, so
+    # that those see the random numbers they always saw)
+    n_sp = 170 if ctx.quick else 2400
+    n_sp_gc = 30 if ctx.quick else 400
+    corpus2 = prov_corpus(corpus, load_rsmis(), rnd, 40)
+    ctx.count("spelling:corpus_centres_made_by_get_rc(rsmi_to_its)", len(corpus2) - len(corpus))
+    spell = []
+    for k in range(n_sp):
+        size = rnd.randint(3, 12) if k % 3 else rnd.randint(8, 26)
+        attr = rnd.choice(["none", "none", "none", "elems", "hash", "size"] + list(NUMTYPE_KINDS))
+        spell.append(make_case(rnd, corpus2, size, attr, with_templates=rnd.random() < 0.5, mixed=rnd.random() < 0.3, kinds=kinds))
+    for k in range(n_sp_gc):
+        spell.append(make_case(rnd, corpus2, rnd.randint(3, 24), rnd.choice(["elems_unsorted", "degs_unsorted"]), False,
+                               gc_only=True, mixed=rnd.random() < 0.3, kinds=kinds))
+    for c in spell:
+        respell_pool(c, rnd, kinds)
+    if len(ctx.violations) < 6:
+        fix_templates(spell, ctx.lean())
+        evaluate(ctx, spell, "spellings-and-provenance")
+    sp_pairs = [make_repr_pair(rnd, corpus, kinds) for _ in range(150 if ctx.quick else 2000)]
+    if len(ctx.violations) < 6:
+        evaluate_pairs(ctx, sp_pairs, "predicate-direct-spellings")
     for k, v in sorted(kinds.items()):
         ctx.count(k, v)
     ctx.violations.sort(key=lambda v: v["no_input"])  # failing inputs first
@@ -1575,6 +1923,9 @@ def run(ctx):
                    "one-shot == batched; template classes respected", not unknown)
     ctx.obligation("correspondence: graph_isomorphism / find_graph_isomorphism (the predicate behind clustering) == Lean match.iso on "
                    "ordered pairs, including empty, single-atom and edgeless centres", not unknown)
+    ctx.obligation("correspondence: the same classes whatever the spelling of ==-equal numbers (int / float / numpy, mixed within one "
+                   "list, as the pickled corpus, get_rc(rsmi_to_its(.)) and gml_to_its(.) write them), with spectator attributes "
+                   "under well-known names, and with bond orders given as strings", not unknown)
     ctx.obligation("correspondence: the same answers through the other documented ways to ask -- rule / attribute key names, "
                    "positional and default arguments, templates=None, attribute values that are lists of ints / dicts / "
                    "OrderedDicts / tuples / frozensets / ints / absent, backend name in another case", not unknown)
